@@ -203,3 +203,49 @@ Qed.
 Theorem quit_gthread_waits_refuted :
   exists w, w_cls w = GThread /\ w_mode (wrun 768 w [WQuit; WTick 256; WLoop; WTick 256; WLoop]) <> Gone.
 Proof. exists (w_init GThread CApp 100000 512 0). split; [reflexivity|]. vm_compute. discriminate. Qed.
+
+(* ---- a worker that is only ever sent TERM (reload: the master never follows up with KILL) ----------------------------- *)
+(* sync and gthread never give up a request that was started: sync leaves its loop only between two requests, gthread's
+   pool threads are joined when the process exits *)
+Definition Kept (w : wst) : Prop :=
+  (w_cls w = Sync \/ w_cls w = GThread) /\
+  (match w_conn w with
+   | CHead | CApp | CResp | CDone => True
+   | CIdle => w_cls w = Sync
+   | _ => False
+   end) /\
+  (match w_mode w with
+   | Gone => w_conn w = CDone
+   | Draining _ | Leaving => w_cls w = GThread
+   | Serving => True
+   end).
+
+Definition gentle (e : wev) : bool := match e with WKill | WQuit => false | _ => true end.
+
+Lemma kept_step : tables_ok -> forall g w e, Kept w -> gentle e = true -> Kept (wstep g w e).
+Proof.
+  intros T g w e K Ge. pose proof T as [Tg _].
+  destruct w as [cl al md cn nd ck tm kp]. unfold Kept in *. unfold wstep. simpl in *.
+  destruct K as [K1 [K2 K3]].
+  destruct md as [|t0| |]; destruct e; try discriminate; destruct cl; destruct cn; destruct al; simpl in *;
+    rewrite ?Tg; simpl;
+    repeat (match goal with |- context [if ?x then _ else _] => destruct x end; simpl);
+    repeat split; auto; try discriminate; try contradiction; try (destruct K1; discriminate).
+Qed.
+
+Lemma kept_run : tables_ok -> forall g es w, Kept w -> forallb gentle es = true -> Kept (wrun g w es).
+Proof.
+  intros T g. induction es as [|e t IH]; simpl; intros w K G; auto.
+  apply andb_true_iff in G. destruct G as [G1 G2]. apply IH; auto. apply kept_step; auto.
+Qed.
+
+Theorem term_only_never_loses : tables_ok -> forall g cl ph need keep clk es,
+  cl = Sync \/ cl = GThread -> started (w_init cl ph need keep clk) = true -> forallb gentle es = true ->
+  w_conn (wrun g (w_init cl ph need keep clk) es) <> CLost.
+Proof.
+  intros T g cl ph need keep clk es Hc St G.
+  assert (K : Kept (w_init cl ph need keep clk)).
+  { unfold Kept, w_init, started in *. simpl in *. repeat split; auto.
+    destruct ph; destruct cl; simpl in *; auto; try discriminate; destruct Hc; discriminate. }
+  pose proof (kept_run T g es _ K G) as [_ [K2 _]]. intro Q. rewrite Q in K2. exact K2.
+Qed.
